@@ -112,8 +112,43 @@ def run(ctx):
                                                                  correspondence='try_reflink / per-file call order vs Xcp.tryReflink / Xcp.monitorFile',
                                                                  theorems=['Xcp.C15.monitor_sound']),
                                   f'model/implementation disagree ({what}) on {os.path.basename(dst)}: {toks}', no_input=True)
+        # ---- sources on ANOTHER file system than the destination (tmpfs under /dev/shm -> ext4): the mode's contract does not
+        # depend on where the files live: `always` still asks for a clone of every file and fails when it is refused (EXDEV)
+        import shutil
+        shm = '/dev/shm'
+        if os.path.isdir(shm) and os.stat(shm).st_dev != os.stat(root).st_dev:
+            ext = f'{shm}/xcpv-c15-{os.getpid()}'
+            try:
+                for driver in ('parfile', 'parblock'):
+                    for mode in ('always', 'auto', 'never'):      # (sup's emulation of a successful clone needs both files on one file system)
+                        shutil.rmtree(ext, ignore_errors=True); os.makedirs(ext + '/S/sub')
+                        shutil.rmtree(root + '/XD', ignore_errors=True)
+                        datas = {'S/a': os.urandom(5000), 'S/sub/b': os.urandom(70000), 'S/c': b'x'}
+                        for k, v in datas.items():
+                            open(f'{ext}/{k}', 'wb').write(v)
+                        plan = ['cloneok'] if mode.endswith('cloneok') else None
+                        argv = ['-r', '--driver', driver, '--workers', '2', f'--reflink={mode.split("+")[0]}', ext + '/S', root + '/XD']
+                        r = scen.run_xcp(root, argv, plan=plan, timeout=60, trace=True)
+                        clones = [e for e in r.trace if e['sys'] == 'ficlone']
+                        ctx.count(f'cross_device.{mode}.exit.{r.cls}'); ctx.case(('cross-device', driver, mode), True)
+                        same = all(os.path.isfile(f'{root}/XD/{k[2:]}') and open(f'{root}/XD/{k[2:]}', 'rb').read() == v for k, v in datas.items())
+                        bad = None
+                        if mode == 'always' and r.cls == '0':
+                            bad = f'--reflink=always across file systems exited 0 ({len(clones)} clone requests for {len(datas)} files): the clone cannot have happened'
+                        elif mode == 'always+cloneok' and (r.cls != '0' or len(clones) != len(datas)):
+                            bad = f'--reflink=always with every clone answered "done": exit {r.cls}, {len(clones)} clone requests for {len(datas)} files'
+                        elif mode == 'auto' and (r.cls != '0' or not same or len(clones) != len(datas)):
+                            bad = f'--reflink=auto across file systems: exit {r.cls}, bytes identical={same}, {len(clones)} clone attempts for {len(datas)} files'
+                        elif mode == 'never' and (r.cls != '0' or not same or clones):
+                            bad = f'--reflink=never across file systems: exit {r.cls}, bytes identical={same}, {len(clones)} clone requests'
+                        if bad:
+                            ctx.violation(f'cross-device-{driver}-{mode}.json', dict(argv=argv, plan=plan, exit=r.cls, clones=len(clones), stderr=r.stderr[-300:]), f'C15: {bad} ({driver})')
+            finally:
+                shutil.rmtree(ext, ignore_errors=True)
+        else:
+            ctx.count('cross_device.skipped')
     ctx.cov['rule'] = ('trees of 1-3 files x driver x reflink {never, auto, always} x clone answered natively (ext4: EOPNOTSUPP), by an injected unsupported errno, '
-                       'by a hard error, or emulated as successful; distinct = distinct (mode, answer kind, driver, sizes, plan)')
+                       'by a hard error, or emulated as successful; plus sources on another file system (tmpfs) for every mode; distinct = distinct (mode, answer kind, driver, sizes, plan)')
     ctx.assumptions += ['a successful FICLONE makes the destination identical (emulated here by a whole-file kernel copy)']
 
 
